@@ -175,15 +175,27 @@ def promote(a, b):
         return da
     if da.eq(db):
         return da
+    BOOL = U("bool_dtype", DtypeS)
+    if db.eq(BOOL):   # [T] bool is the lowest category of torch's type promotion: promote(d, bool) = d
+        return da
+    if da.eq(BOOL):
+        return db
     return z3.If(da == db, da, U("promote", DtypeS, da, db))
 
 
 def bshape(a, b):
-    sa = a.shape_l if isinstance(a, ATen) else []
-    sb = b.shape_l if isinstance(b, ATen) else []
-    if len(sa) >= len(sb):
-        return list(sa)
-    return list(sb)
+    """broadcast shape: dimensions aligned from the right; a literal 1 yields to the other side's entry"""
+    sa = list(a.shape_l) if isinstance(a, ATen) else []
+    sb = list(b.shape_l) if isinstance(b, ATen) else []
+    n = max(len(sa), len(sb))
+    pa, pb = [1] * (n - len(sa)) + sa, [1] * (n - len(sb)) + sb
+    out = []
+    for x, y in zip(pa, pb):
+        if isinstance(x, int) and x == 1:
+            out.append(y)
+        else:
+            out.append(x)   # equal sizes, or y == 1 (a mismatch is a RuntimeError in torch: shapes of valid programs agree)
+    return out
 
 
 OPN = {ast.Add: "add", ast.Sub: "sub", ast.Mult: "mul", ast.Div: "div", ast.Pow: "pow", ast.MatMult: "matmul"}
